@@ -426,7 +426,7 @@ impl Check for C13 {
     }
     fn run_shard(&self, ctx: &Ctx, rec: &mut Rec) {
         let total = match ctx.tier {
-            Tier::Quick => 2500,
+            Tier::Quick => 5000,
             Tier::Thorough => 30000,
         };
         prop_loop(ctx, rec, "gen", strategy(), ctx.share(total), judge);
